@@ -17,12 +17,13 @@ for sid in ids:
         print(sid, 'PATCH DOES NOT APPLY', r.stderr); continue
     t0 = time.time()
     try:
-        out = subprocess.run(['/verif/bin/govc', 'check', '--property', prop, '--tier', 'quick', '--no-evidence'], capture_output=True, text=True, timeout=900)
+        out = subprocess.run(['/verif/bin/govc', 'check', '--property', prop, '--tier', 'quick'], capture_output=True, text=True, timeout=900)
         code, text = out.returncode, out.stdout + out.stderr
     except subprocess.TimeoutExpired:
         code, text = -1, 'timeout'
     finally:
         subprocess.run(['git', '-C', '/repo', 'checkout', '--', '.'])
+        subprocess.run(['git', '-C', '/verif', 'checkout', '--', 'evidence'])
     failed = re.findall(r'^\s+FAILED (\S+)', text, re.M)
     meta.update({'property': prop, 'detected': code == 1, 'check_exit': code, 'failed_obligations': failed,
                  'check_seconds': round(time.time() - t0, 1),
